@@ -118,8 +118,13 @@ func runC10(c *core.Ctx, o Options) {
 			}
 			to := an.Render(an.ResolveOnPath(call.Call.Args[2], p))
 			endExpr := tr + ".EndSeqNo()"
+			beginExpr := tr + ".BeginSeqNo()"
 			switch {
 			case p.Has(endExpr + " == 0"):
+				// the path must be takeable by a request b..0 with b >= 1
+				if !an.PathFeasible(p, an.Atom{L: "1", Rel: "<=", R: beginExpr}, an.Atom{L: endExpr, Rel: "==", R: "0"}) {
+					continue
+				}
 				nOpen++
 				if !strings.Contains(to, ".GetCurrSeqNum(") || !strings.HasSuffix(to, "#0") {
 					bad5 = append(bad5, "EndSeqNo = 0 (open end) but the upper bound is "+to+", not the last number sent")
@@ -129,6 +134,9 @@ func runC10(c *core.Ctx, o Options) {
 					}
 				}
 			case p.Has(endExpr + " != 0"):
+				if !an.PathFeasible(p, an.Atom{L: "1", Rel: "<=", R: beginExpr}, an.Atom{L: beginExpr, Rel: "<=", R: endExpr}) {
+					continue
+				}
 				nClosed++
 				if to != endExpr {
 					bad2 = append(bad2, "upper bound is "+to+", not EndSeqNo() of the parsed request")
@@ -149,7 +157,7 @@ func runC10(c *core.Ctx, o Options) {
 		if len(bad5) > 0 {
 			ob.Fail("%s", bad5[0])
 		} else if nOpen == 0 || nClosed == 0 {
-			ob.Fail("open-end paths: %d, closed-end paths: %d (need both)", nOpen, nClosed)
+			ob.Fail("feasible paths to the store lookup: %d for a request b..0 (b ≥ 1), %d for a request b..e (1 ≤ b ≤ e); both forms must reach the lookup", nOpen, nClosed)
 		} else {
 			ob.Ok("%d open-end and %d closed-end path(s)", nOpen, nClosed)
 		}
@@ -209,17 +217,19 @@ func runC10(c *core.Ctx, o Options) {
 		var bad []string
 		nGap, nNoGap := 0, 0
 		inc := pi.Params[1].Name() + ".HeaderBuilder().MsgSeqNum()"
+		// the last received number: result #0 of the GetCurrSeqNum call
+		curr := ""
+		an.AllInstrs(pi, func(in ssa.Instruction) {
+			if call, ok := in.(*ssa.Call); ok && call.Call.IsInvoke() && call.Call.Method.Name() == "GetCurrSeqNum" {
+				curr = an.Render(call) + "#0"
+			}
+		})
 		for _, p := range paths {
-			if p.Return == nil {
+			if p.Return == nil || curr == "" {
 				continue
 			}
-			var gapAtom *an.Atom
-			for i, a := range p.Atoms {
-				if a.Rel == "<" && strings.Contains(a.L, "GetCurrSeqNum(") && a.R == inc {
-					gapAtom = &p.Atoms[i]
-				}
-			}
-			// collect setter calls on the path
+			// the path is a gap path iff its conditions entail  last received + 1 < received
+			gap := an.PathDBM(p).Entails(an.Lin{Term: curr, K: 1}, an.Lin{Term: inc}, true)
 			var begin, end ssa.Value
 			nSendCalls := 0
 			for _, b := range p.Blocks {
@@ -239,11 +249,17 @@ func runC10(c *core.Ctx, o Options) {
 					}
 				}
 			}
-			if gapAtom == nil {
+			if !gap {
 				if nSendCalls > 0 {
-					bad = append(bad, "a ResendRequest is sent although no gap was detected: "+p.CondString())
+					bad = append(bad, "a ResendRequest is sent on a path whose conditions do not establish last-received + 1 < received: "+p.CondString())
 				}
-				if !strings.Contains(p.CondString(), "#1 != nil") {
+				isErr := false
+				for _, a := range p.Atoms {
+					if strings.HasSuffix(a.L, "#1") && a.Rel == "!=" && a.R == "nil" {
+						isErr = true
+					}
+				}
+				if !isErr {
 					nNoGap++
 				}
 				continue
@@ -253,11 +269,8 @@ func runC10(c *core.Ctx, o Options) {
 				bad = append(bad, "gap detected but not exactly one ResendRequest with Begin/EndSeqNo is sent")
 				continue
 			}
-			if b := an.Render(begin); b != gapAtom.L {
-				bad = append(bad, fmt.Sprintf("gap when %s < %s, but the request begins at %s instead of the first missing number %s", gapAtom.L, gapAtom.R, b, gapAtom.L))
-			}
-			if !strings.HasSuffix(gapAtom.L, " + 1)") {
-				bad = append(bad, "the gap test does not compare last-received + 1 with the received number: "+gapAtom.String())
+			if b := an.ParseLin(an.RenderOnPath(begin, p)); b.Term != curr || b.K != 1 {
+				bad = append(bad, fmt.Sprintf("gap (last received + 1 < received) but the request begins at %s instead of the first missing number, last received + 1", an.RenderOnPath(begin, p)))
 			}
 			if e, ok := an.ConstInt(end); !ok || e != 0 {
 				bad = append(bad, "EndSeqNo of the gap request is "+an.Render(end)+", not 0")
